@@ -246,6 +246,13 @@ func guardEdges(fn *ssa.Function, g guardSpec) (edges map[edge]bool, descr []str
 			}
 		}
 	}
+	// plus the edges behind which a helper call has established g (`if err := validate(x); err != nil { return }`)
+	if he, hd := helperGuardEdges(fn, g); len(he) > 0 {
+		for e := range he {
+			edges[e] = true
+		}
+		descr = append(descr, hd...)
+	}
 	// plus the edges on which g holds on every feasible traversal once merged conditions are resolved per path
 	threadedGuardEdges(fn, g, edges, &descr)
 	return
@@ -352,6 +359,13 @@ func (c *Ctx) GuardOpt(rule string, fn *ssa.Function, eff Effect, opt GuardOpts,
 			if eff.Match(in) {
 				effs = append(effs, in)
 			}
+		}
+	}
+	if len(effs) == 0 {
+		// the effect may have been moved into a helper this function calls: the calls then stand for it
+		if sites, via := helperEffectSites(fn, eff); len(sites) > 0 {
+			effs = sites
+			opt.Note += fmt.Sprintf(" (effect found in helper %s; its call sites are guarded here)", strings.Join(via, ", "))
 		}
 	}
 	if len(effs) == 0 {
